@@ -565,3 +565,123 @@ def rule_clients(ctx, classes, rule='M4c', title=None):
     res.assumptions.append('A-CAPS-PARAM: lines received as parameters have the capabilities the function documents')
     res.assumptions.append('A-ENUM-UNION')
     return res, nfun, ncalls
+
+
+# ------------------------------------------------------------------ M2c: requested => written
+def rule_M2c(ctx, classes=None):
+    """completeness of the gated writes: on every path to a normal return, an output whose bit is in the
+    incoming mask (and, for lines, in the capabilities) has been written."""
+    res = RuleResult('M2c', 'requested => computed: on every path of a Gen*/Lengths function that returns normally (not the '
+                            'documented NaN failure return) each output whose bit is requested - and, for a line, within '
+                            'its capabilities - has been written')
+    lc = get_licctx(ctx)
+    mc = lc.mc
+    nf = 0
+    nob = 0
+    for f, cls, mp, outs in sorted(mc.gated, key=lambda x: (x[0].file, x[0].line)):
+        if classes and cls not in classes:
+            continue
+        nf += 1
+        fl = mc.flow(f)
+        mname = f.params[mp]['name']
+        entry = {'v:' + f.params[pi]['d']: DECL_TRUE for pi in outs}
+        U, per = lc.object_U(NS + cls)
+        member_U = {'this.' + m: u for m, u in U.items()}
+        kb = {'v:' + f.params[pi]['d']: {M.out_bit(ctx, cls, M.PARAM_ENUM[f.params[pi]['name']])} for pi in outs}
+        lic = Lic(ctx, f, fl, member_U=member_U, gated=lc.gated, ax=lc.axioms(NS + cls), entry_U=entry,
+                  member_writes=lc.member_writes, key_bits=kb)
+        is_line = 'Line' in cls
+        for b, st in lic.exit_states:
+            # the documented failure return (NaN) leaves everything untouched
+            blk_nodes = [e for kind, e in fl._elts[b] if kind == 'stmt']
+            nanret = False
+            for e in blk_nodes:
+                n = f.nodes[e]
+                if n['k'] == 'ReturnStmt' and n.get('val', -1) >= 0:
+                    for j in f.walk(n['val']):
+                        ce = f.nodes[j].get('callee')
+                        if ce and ce.get('q') == NS + 'Math::NaN':
+                            nanret = True
+            if nanret:
+                continue
+            alts = fl.facts_in.get(b)
+            if not alts:
+                continue
+            for pi in outs:
+                pn = f.params[pi]['name']
+                bit = M.out_bit(ctx, cls, M.PARAM_ENUM[pn])
+                u = st.get('v:' + f.params[pi]['d'], FALSE)
+                nob += 1
+                if u == FALSE:
+                    res.ob(True, None)
+                    continue
+                req = frozenset([frozenset([('b:in:%s:%d' % (mname, bit), True)] +
+                                           ([('b:this._caps:%d' % bit, True)] if is_line else []))])
+                cond = d_and(frozenset(c - {DECL} for c in u), req)
+                from ..lic import satisfiable
+                w = satisfiable(alts, cond, lc.axioms(NS + cls))
+                ok = w is None
+                res.ob(ok, {'fn': f.q, 'output': pn, 'bit': bit, 'unwritten_when': _show(frozenset(c - {DECL} for c in u))}
+                       if (not ok or nob % 25 == 1) else None)
+                if not ok:
+                    res.fail(f.q, pn + '/unwritten', f.loc(), 'output %s is requested (bit %d, %s) but is left unwritten on a path '
+                             'that returns normally (path: %s)' % (pn, bit, M.PARAM_ENUM[pn], _showl(w)))
+    res.analysed['gated_functions'] = nf
+    res.analysed['exit_output_pairs'] = nob
+    return res, nf, nob
+
+
+# ------------------------------------------------------------------ M6: no stale member behind a conditional write
+def rule_M6(ctx):
+    res = RuleResult('M6', 'no stale state behind a conditional write: when a data member is bound to an output position of '
+                           'a gated call whose write condition is not always true, the member is assigned a fresh value '
+                           'on every path before the call')
+    lc = get_licctx(ctx)
+    n = 0
+    from .eff import must_pass
+    for f in sorted(ctx.lib_fns(), key=lambda x: (x.file, x.line)):
+        if not f.cfg or f.is_const or not f.is_method:
+            continue
+        fl = None
+        for i, nd in f.all_nodes():
+            ce = nd.get('callee')
+            if not ce or ce.get('usr') not in lc.gated:
+                continue
+            g = lc.gated[ce['usr']]
+            args = nd.get('args', [])
+            for j, bit in g[3].items():
+                if j >= len(args):
+                    continue
+                an = f.nodes[f.strip(args[j])]
+                if an['k'] != 'MemberExpr' or not an.get('thisbase'):
+                    continue
+                if fl is None:
+                    fl = lc.flow(f, None)
+                if g[2] is None:
+                    cond = TRUE if g[4].get(j) else FALSE
+                else:
+                    cond = fl.eval_bv(args[g[2]], fl.env_at(i)).bits[bit]
+                # a call on a line object additionally needs the capability, which the caller cannot know
+                online = (ce.get('cls') or '').endswith(('GeodesicLine', 'GeodesicLineExact', 'RhumbLine'))
+                if cond == TRUE and not online:
+                    continue
+                n += 1
+                m = an['m']
+
+                def is_store(e):
+                    en = f.nodes[e]
+                    if en['k'] in ('BinaryOperator',) and en.get('op') == '=':
+                        for k_ in f.walk(en['ch'][0]):
+                            kn = f.nodes[k_]
+                            if kn['k'] == 'MemberExpr' and kn.get('thisbase') and kn.get('m') == m:
+                                return True
+                        # chained: a = b = x  -> inner assignment is its own element
+                    return False
+                ok = must_pass(fl, f, i, is_store)
+                res.ob(ok, {'fn': f.q, 'member': m, 'call': f.loc(i), 'fresh_value_assigned_before': ok})
+                if not ok:
+                    res.fail(f.q, m + '/stale', f.loc(i), '%s passes member %s to %s as an output that is written only if the '
+                             'line has the capability; no fresh value is assigned to it before the call, so a stale value '
+                             'survives when the write is skipped' % (f.q, m, ce.get('q')))
+    res.analysed['conditional_member_bindings'] = n
+    return res, n
